@@ -395,3 +395,92 @@ pub fn renumber(u: &Universe, p: &Prob, r: &mut Rng, sparse: bool) -> (Universe,
     let st = f(r, u.strings.len());
     u.renumber(p, &pk, &sv, &vs, &un, &st)
 }
+
+/// Shape around defect D13: a soft solvable whose candidates conflict with facts that are forced
+/// at level 1, so that the soft run learns a clause that would back-jump below its own starting
+/// level, next to root requirements (one of them a union) whose decision order can flip when
+/// activities change. Randomised in sizes, in which constrains exist and in hints.
+pub fn soft_backjump(r: &mut Rng) -> (Universe, Prob) {
+    let mut u = Universe::default();
+    let nr = 1 + r.below(2) as u32;
+    for v in 1..=nr {
+        u.solv("r", v);
+    }
+    let na = 2 + r.below(2) as u32;
+    for v in 1..=na {
+        u.solv("a", v);
+    }
+    let ne = 1 + r.below(2) as u32;
+    for v in 1..=ne {
+        u.solv("e", v);
+    }
+    let nlow = 1 + r.below(2) as u32;
+    let nhigh = 1 + r.below(3) as u32;
+    let mut low = vec![];
+    let mut high = vec![];
+    for v in 1..=nlow {
+        low.push(u.solv("d", v));
+    }
+    for v in 0..nhigh {
+        high.push(u.solv("d", 5 + v));
+    }
+    let nx = 1 + r.below(2) as u32;
+    let mut xs = vec![];
+    for v in 1..=nx {
+        xs.push(u.solv("x", v));
+    }
+    // low versions of d push `a` away from its best version
+    let a_low = u.vs("a", 0, na);
+    for &s in &low {
+        if r.chance(4, 5) {
+            u.add_con(s, a_low);
+        }
+    }
+    // high versions of d are incompatible with something forced early
+    let r_none = u.vs("r", 0, 1);
+    let e_none = u.vs("e", 0, 1);
+    let a_none = u.vs("a", 0, 1);
+    for &s in &high {
+        match r.below(6) {
+            0 => u.add_con(s, e_none),
+            1 => u.add_con(s, a_none),
+            2 => {}
+            _ => u.add_con(s, r_none),
+        }
+    }
+    let d_high = u.vs("d", 5, 5 + nhigh);
+    for &x in &xs {
+        u.add_req(x, Req::Single(d_high));
+        if r.chance(1, 4) {
+            let ea = u.vs("e", 0, 100);
+            u.add_req(x, Req::Single(ea));
+        }
+    }
+    let r_any = u.vs("r", 0, 100);
+    let a_any = u.vs("a", 0, 100);
+    let e_any = u.vs("e", 0, 100);
+    let d_low = u.vs("d", 1, nlow + 1);
+    let un = if r.chance(1, 2) { u.union(vec![d_low, e_any]) } else { u.union(vec![e_any, d_low]) };
+    let mut reqs = vec![Req::Single(r_any), Req::Single(a_any), Req::Union(un)];
+    if r.chance(1, 3) {
+        reqs.push(Req::Single(e_any));
+    }
+    if r.chance(1, 2) {
+        r.shuffle(&mut reqs);
+    }
+    u.finalize();
+    if r.chance(1, 3) {
+        for p in &mut u.pkgs {
+            p.hint = if r.chance(1, 2) { Hint::All } else { Hint::None };
+        }
+    }
+    let mut soft: Vec<u32> = xs.clone();
+    if r.chance(1, 3) {
+        soft.push(*r.pick(&high));
+    }
+    if r.chance(1, 4) {
+        soft.push(r.below(u.solvs.len() as u64) as u32);
+    }
+    r.shuffle(&mut soft);
+    (u, Prob { reqs, cons: vec![], soft })
+}
